@@ -74,6 +74,20 @@ def build_native(P, lengths):
     return True
 
 
+def build_native_raw(P):
+    txt = e1gen.build_raw_native(P.g, P.gen['rust'])
+    src = os.path.join(P.dir, 'native_raw.rs')
+    open(src, 'w', encoding='utf8').write(txt)
+    exe = os.path.join(P.dir, 'native_raw')
+    rc, out = common.sh(['rustc', '--edition', '2021', '--cap-lints', 'allow', '-O', src, '-o', exe], timeout=600)
+    if rc != 0:
+        P.native_error = out[-3000:]
+        return False
+    P.native = {'release': exe}
+    P.native_error = None
+    return True
+
+
 def native_run(P, n, kinds, vals, prof='dev', timeout=10):
     try:
         p = subprocess.run([P.native[prof], str(n), ','.join(map(str, kinds)), ','.join(map(str, vals))],
